@@ -50,9 +50,10 @@ class SStr:
 class Ref:
     """Reference to a heap object of class `cls` (z3 Int term)."""
 
-    def __init__(self, cls, term):
+    def __init__(self, cls, term, nullable=False):
         self.cls = cls
         self.term = term if z3.is_expr(term) else z3.IntVal(term)
+        self.nullable = nullable  # an Optional[cls]: term == -1 encodes None
 
     def __repr__(self):
         return f"Ref<{self.cls}>({self.term})"
